@@ -282,6 +282,17 @@ func propC11Cell(c c11Cell) hh.Verdict {
 	if strings.Contains(is.Message, "{{") || strings.Contains(is.Message, "}}") {
 		return fail("unresolved placeholder in message %q", is.Message)
 	}
+	// the message is what THIS cell's language produces for this issue (not a leftover of another execution)
+	langMap := en.Map
+	if c.Lang == "i18n-es" {
+		langMap = es.Map
+	}
+	cp := *is
+	cp.Message = ""
+	conf.NewDefaultFormatter(langMap)(&cp, nil)
+	if cp.Message != is.Message {
+		return fail("message %q is not the rendering of this execution's language (%q)", is.Message, cp.Message)
+	}
 	switch c.What {
 	case "test":
 		want := canonParams(model.DefaultParams(c.Kind, c.Elem, c.Test))
@@ -420,6 +431,86 @@ func propC11Prec(p c11Prec) hh.Verdict {
 	return v
 }
 
+// ---- Part C: decode-failure issues under consecutive executions with different formatters ----
+
+type c11Seq struct {
+	FE   string `json:"fe"`   // zjson | zhttp-json | zhttp-form
+	Body string `json:"body"` // undecodable body
+	Ptr  bool   `json:"ptr"`  // schema is Ptr(Struct) instead of Struct
+}
+
+func propC11Seq(c c11Seq) hh.Verdict {
+	saved := conf.IssueFormatter
+	defer func() { conf.IssueFormatter = saved }()
+	type D struct{ A string }
+	st := z.Struct(z.Schema{"a": z.String()})
+	run := func(opts ...z.ExecOption) (z.ZogIssueMap, any) {
+		var data any
+		switch c.FE {
+		case "zjson":
+			data = zjson.Decode(strings.NewReader(c.Body))
+		default:
+			req, _ := http.NewRequest("POST", "http://example.test/", strings.NewReader(c.Body))
+			ct := "application/json"
+			if c.FE == "zhttp-form" {
+				ct = "application/x-www-form-urlencoded"
+			}
+			req.Header.Set("Content-Type", ct)
+			data = zhttp.Request(req)
+		}
+		var pan any
+		var errs z.ZogIssueMap
+		func() {
+			defer func() { pan = recover() }()
+			if c.Ptr {
+				var d *D
+				errs = z.Ptr(st).Parse(data, &d, opts...)
+			} else {
+				var d D
+				errs = st.Parse(data, &d, opts...)
+			}
+		}()
+		return errs, pan
+	}
+	marker := func(m string) z.ExecOption {
+		return z.WithIssueFormatter(func(e *z.ZogIssue, ctx z.Ctx) { e.SetMessage(m) })
+	}
+	steps := []struct {
+		name  string
+		setup func()
+		opts  []z.ExecOption
+		want  string
+	}{
+		{"execution formatter X1", func() {}, []z.ExecOption{marker("X1")}, "X1"},
+		{"execution formatter X2", func() {}, []z.ExecOption{marker("X2")}, "X2"},
+		{"global formatter G", func() { conf.IssueFormatter = func(e *z.ZogIssue, ctx z.Ctx) { e.SetMessage("G") } }, nil, "G"},
+		{"i18n es", func() { i18n.SetLanguagesErrsMap(map[string]i18n.LangMap{"en": markerMap("en"), "es": markerMap("es")}, "en") }, []z.ExecOption{z.WithCtxValue(i18n.LangKey, "es")}, "L:es"},
+		{"i18n default", func() {}, nil, "L:en"},
+		{"execution formatter X3 over i18n", func() {}, []z.ExecOption{marker("X3")}, "X3"},
+	}
+	for i, s := range steps {
+		s.setup()
+		errs, pan := run(s.opts...)
+		if pan != nil {
+			return hh.Fail("step %d (%s): panic %v", i, s.name, pan)
+		}
+		root := errs["$root"]
+		if len(root) != 1 {
+			return hh.Fail("step %d (%s): expected one issue at $root, got %v", i, s.name, z.Issues.SanitizeMap(errs))
+		}
+		if root[0].Message != s.want {
+			return hh.Fail("step %d (%s): the decode-failure issue carries message %q, this execution's formatter gives %q", i, s.name, root[0].Message, s.want)
+		}
+		if root[0].Path != "" || root[0].Dtype != "struct" {
+			return hh.Fail("step %d (%s): path %q type %q", i, s.name, root[0].Path, root[0].Dtype)
+		}
+		if i%2 == 1 {
+			z.Issues.CollectMap(errs) // handing issues back must not matter either
+		}
+	}
+	return hh.Verdict{Nontrivial: true, Classes: []string{"fe:" + c.FE}}
+}
+
 func TestC11(t *testing.T) {
 	h := hh.Start(t, "C11",
 		"Part A (exhaustive): every built-in test of every schema type (string 14 + 12 negated, numbers 6 x 5 widths, bool 3, time 3, slice 4+1), required (9 types), not_nil (pointer to 10 types), coerce (9 types), invalid_json (zjson and zhttp, 5 bodies) and invalid_form (3 bodies) x mode x formatter configuration {default, i18n with lang en / es / none / unknown}; each cell constructs a failing input and inspects the single resulting issue; every cell is non-trivial and distinct. Part B (random): generated schemas/inputs x formatter configurations with a distinguishable marker per level; non-trivial = an issue for which >=2 levels were configured",
@@ -427,6 +518,18 @@ func TestC11(t *testing.T) {
 		"Bool True()/False(): code eq or true/false accepted (documentation names both); the value reference of decode failures is not asserted (the body is consumed)")
 	defer h.Finish()
 	hh.Enumerate(h, "catalogue", c11Cells, propC11Cell)
+	hh.Enumerate(h, "decode-failure-sequences", func(yield func(c11Seq)) {
+		for _, ptr := range []bool{false, true} {
+			for _, fe := range []string{"zjson", "zhttp-json"} {
+				for _, body := range []string{"null", "[1]", `{"a":`, "", `"s"`} {
+					yield(c11Seq{FE: fe, Body: body, Ptr: ptr})
+				}
+			}
+			for _, body := range []string{"a=%zz", "%"} {
+				yield(c11Seq{FE: "zhttp-form", Body: body, Ptr: ptr})
+			}
+		}
+	}, propC11Seq)
 	for _, mode := range modes {
 		cfg := model.DefaultCfg(mode)
 		cfg.PPost, cfg.POpts = 0, 0.45
